@@ -1,14 +1,17 @@
 // Package c13 drives the real update manager (libvuln/updates.Manager) through
 // its public API with scripted updaters, a recording updater store and the
 // real process-local lock source, linearises everything the manager does
-// (hook points in Run, lock operations, store calls, updater calls) under one
-// mutex, and emits that trace in the line protocol of the Lean machine
-// (Model/Manager.lean).  The same observations feed direct checks of the
-// property statement.
+// (hook points in Run and Start, lock operations, store calls, updater and
+// factory calls) under one mutex, and emits that trace in the line protocol
+// of the Lean model (Model/Manager.lean, ManagerSetup.lean, ManagerStart.lean).
+// The set-up code (driver.UpdaterSet, updater.Register/Registered/Configure,
+// the ManagerOptions, NewManager) is driven operation by operation in the same
+// protocol.  The same observations feed direct checks of the property statement.
 package c13
 
 import (
 	"context"
+	"errors"
 	"fmt"
 	"net/http"
 	"runtime"
@@ -16,8 +19,6 @@ import (
 	"strings"
 	"sync"
 	"time"
-
-	"github.com/rs/zerolog"
 
 	"github.com/quay/claircore/internal/verifhook"
 	"github.com/quay/claircore/libvuln/driver"
@@ -27,115 +28,6 @@ import (
 
 type runKey struct{}
 
-// ---- scenario ----------------------------------------------------------------
-
-type facSpec struct {
-	id      int
-	ok      bool
-	members []int
-}
-
-type histOp struct {
-	kind byte // 'v' | 'e'
-	name int
-	fp   int
-}
-
-type mgrSpec struct {
-	batch     int
-	given     []int // WithFactories
-	enabled   []int // WithEnabled (nil: option not used)
-	oot       int   // factory handed over through WithOutOfTree, or -1
-	retention int
-}
-
-// facs is the factory map the manager ends up with.
-func (m mgrSpec) facs() []int {
-	var out []int
-	for _, f := range m.given {
-		if m.enabled == nil {
-			out = append(out, f)
-			continue
-		}
-		for _, e := range m.enabled {
-			if e == f {
-				out = append(out, f)
-				break
-			}
-		}
-	}
-	if m.oot >= 0 {
-		out = append(out, m.oot)
-	}
-	return out
-}
-
-// cancelPlan says when the context of a run is cancelled.
-type cancelPlan struct {
-	kind string // "", "before", "hook", "event", "timer"
-	site string // for "hook": acquire | launch | wait
-	n    int    // k-th occurrence (hook, event) or microseconds (timer)
-}
-
-type runSpec struct {
-	mgr     int
-	phase   int
-	plan    cancelPlan
-	gateD   time.Duration // delay between the wait hook and the opening of the gate
-	startGC int           // 1+r: started when run r is inside store.GC (0: started with its phase)
-}
-
-type scenario struct {
-	scripts  []*script
-	facs     []facSpec
-	hist     []histOp
-	mgrs     []mgrSpec
-	runs     []runSpec
-	procs    int
-	yieldAll bool
-	silent   bool // oracle-only scenario: no protocol lines (for corpus cases outside the machine)
-}
-
-func (s *scenario) decls() []string {
-	var out []string
-	for _, h := range s.hist {
-		out = append(out, fmt.Sprintf("hist %c %d %d", h.kind, h.name, h.fp))
-	}
-	for _, sc := range s.scripts {
-		out = append(out, sc.decl())
-	}
-	for _, f := range s.facs {
-		out = append(out, fmt.Sprintf("fac %d %s %s", f.id, b01(f.ok), csv(f.members)))
-	}
-	for r, rs := range s.runs {
-		m := s.mgrs[rs.mgr]
-		out = append(out, fmt.Sprintf("run %d %d %s %s", r, m.batch, b01(m.retention != 0), csv(m.facs())))
-	}
-	return out
-}
-
-// configured is the statement's "every configured updater": members of the
-// factories that could be constructed and are not a stub set, whose Configure
-// did not fail.
-func (s *scenario) configured(m mgrSpec) map[int]bool {
-	out := map[int]bool{}
-	for _, fid := range m.facs() {
-		f := s.facs[fid]
-		if !f.ok {
-			continue
-		}
-		if len(f.members) == 1 && s.scripts[f.members[0]].name == 0 {
-			continue
-		}
-		for _, i := range f.members {
-			if s.scripts[i].cfg != 2 {
-				out[i] = true
-			}
-		}
-	}
-	return out
-}
-
 // ---- world: everything observed in one scenario ------------------------------
 
 type worker struct {
@@ -144,6 +36,7 @@ type worker struct {
 	lock      string
 	doneSeen  bool
 	inDrive   bool
+	getOk     bool
 	fetched   bool
 	fetchRes  string
 	newFP     int
@@ -154,13 +47,33 @@ type worker struct {
 
 	statusCalls  int
 	statusFailed bool
+	statusName   int
+	statusFP     int
 	failed       bool // a step of its driveUpdater failed
+}
+
+// outcome names how the worker's driveUpdater ended (for the histogram).
+func (wk *worker) outcome() string {
+	switch {
+	case !wk.getOk:
+		return "getops-error"
+	case wk.fetchRes == "err":
+		return "fetch-error"
+	case wk.fetchRes == "unch":
+		return "unchanged"
+	case !wk.parseOk:
+		return "parse-error"
+	case len(wk.stores) > 0 && !wk.stores[len(wk.stores)-1].ok:
+		return "store-error"
+	}
+	return "stored"
 }
 
 type runState struct {
 	id       int
 	spec     runSpec
-	mgr      mgrSpec
+	view     mgrView
+	start    *startState // the Start call that makes this run, or nil
 	cancel   context.CancelFunc
 	gate     chan struct{}
 	gateOnce sync.Once
@@ -174,6 +87,8 @@ type runState struct {
 	hookCount        map[string]int
 	workerEvents     int
 	setStatus        int
+	facCalls         []int
+	cfgCalls         [][2]int
 	gcCalls          int
 	active           int
 	launches         int
@@ -181,32 +96,58 @@ type runState struct {
 	drainedSeen      bool
 	returned         bool
 	started          bool
+	placeholder      bool // the slot of a Start call in the scenario's run list
 	workers          []*worker
 	done             chan struct{}
 }
 
 func (rs *runState) openGate() { rs.gateOnce.Do(func() { close(rs.gate) }) }
 
+// startState is one Manager.Start call.
+type startState struct {
+	id        int
+	spec      runSpec
+	view      mgrView
+	cancel    context.CancelFunc
+	begun     bool // the sbegin line was written
+	k         int  // runs that have returned
+	cur       *runState
+	cancelled bool
+	lastErr   string
+	hasErr    bool
+	returned  bool
+	done      chan struct{}
+}
+
 type world struct {
-	mu         sync.Mutex
-	r          *hx.Run
-	sc         *scenario
-	idx        int
-	seed       uint64
-	lastName   map[int64]int
-	runOfGo    map[int64]int
-	worker     map[int64]*worker
-	byKey      map[[2]int]*worker
-	driving    map[int]*worker // name -> worker inside driveUpdater
-	configured map[int]int
-	runs       []*runState
-	store      *store
-	lastTry    int
-	failures   int
-	flags      map[string]bool
-	silent     bool // no protocol lines
-	gcHolders  int  // Run goroutines holding the "garbage-collection" lock
-	gcHook     func(run int)
+	mu          sync.Mutex
+	r           *hx.Run
+	sc          *scenario
+	idx         int
+	seed        uint64
+	client      *http.Client
+	locks       updates.LockSource
+	ups         []driver.Updater
+	usets       []*driver.UpdaterSet
+	regBind     map[int]int // registry name -> factory of this scenario
+	views       []mgrView
+	mgrOK       []bool
+	facCfgCalls [][2]int
+	lastName    map[int64]int
+	runOfGo     map[int64]int
+	startOfGo   map[int64]*startState
+	worker      map[int64]*worker
+	byKey       map[[2]int]*worker
+	driving     map[int]*worker // name -> worker inside driveUpdater
+	configured  map[int]int
+	runs        []*runState
+	starts      []*startState
+	store       *store
+	lastTry     int
+	failures    int
+	silent      bool // no protocol lines
+	gcHolders   int  // Run goroutines holding the "garbage-collection" lock
+	gcHook      func(run int)
 }
 
 // classified failures (listed findings) are reported a few times only, so that
@@ -242,9 +183,12 @@ func (w *world) op(line, out string) {
 	}
 }
 
+// stray: the manager did something on a goroutine that is neither a known
+// Run/Start call nor one of their workers.
 func (w *world) stray(what string) {
 	w.op("stray "+what, "stray")
 	w.r.Count("stray")
+	w.fail("", "manager-activity-outside-any-known-run-or-worker: "+what)
 }
 
 func (w *world) noteName(inst int) {
@@ -252,6 +196,51 @@ func (w *world) noteName(inst int) {
 	w.mu.Lock()
 	w.lastName[g] = inst
 	w.mu.Unlock()
+}
+
+// runOfGoroutine: the run the goroutine is executing Manager.Run for (directly
+// or inside Manager.Start). Caller holds w.mu.
+func (w *world) runOfGoroutine(g int64, create bool) *runState {
+	if r, ok := w.runOfGo[g]; ok {
+		return w.runs[r]
+	}
+	if st := w.startOfGo[g]; st != nil {
+		if st.cur == nil && create {
+			w.newStartRun(st)
+		}
+		return st.cur
+	}
+	return nil
+}
+
+// newStartRun: the Start loop has entered m.Run(ctx) once more. Caller holds w.mu.
+func (w *world) newStartRun(st *startState) {
+	if !st.begun {
+		st.begun = true
+		w.op(fmt.Sprintf("sbegin %d", st.id), "ok")
+		if st.view.interval == 0 {
+			w.fail("", fmt.Sprintf("Start-ran-the-updaters-although-no-interval-is-configured start=%d", st.id))
+		}
+	}
+	if st.k > 0 {
+		w.op(fmt.Sprintf("tick %d", st.id), "ok")
+		w.r.Count("start:tick")
+	}
+	if st.returned {
+		w.fail("", fmt.Sprintf("run-begun-after-Start-returned start=%d", st.id))
+	}
+	gate := make(chan struct{})
+	rs := &runState{id: len(w.runs), spec: runSpec{mgr: st.spec.mgr}, view: st.view, start: st, gate: gate,
+		hookCount: map[string]int{}, done: make(chan struct{}), started: true}
+	rs.openGate()
+	if st.cancelled {
+		rs.cancelled = true
+		rs.cancelledPreWait = true
+		w.r.Count("start:run-with-dead-context")
+	}
+	w.runs = append(w.runs, rs)
+	st.cur = rs
+	w.op(fmt.Sprintf("run %d %d %d", rs.id, st.spec.mgr, st.id), "ok")
 }
 
 // workerOf attributes a call made by the manager to the worker goroutine it
@@ -295,18 +284,40 @@ func (w *world) enterDrive(wk *worker) {
 
 func (w *world) leaveDrive(wk *worker) {}
 
-func (w *world) cancelLocked(rs *runState) {
-	if rs.cancelled || rs.returned {
-		return
-	}
+func (rs *runState) markCancelled() {
 	rs.cancelled = true
 	if !rs.waitSeen {
 		rs.cancelledPreWait = true
 	}
 	rs.openAtCancel = rs.lastHook == "acquire"
+}
+
+func (w *world) cancelLocked(rs *runState) {
+	if rs.start != nil {
+		w.cancelStart(rs.start)
+		return
+	}
+	if rs.cancelled || rs.returned {
+		return
+	}
+	rs.markCancelled()
 	rs.cancel()
 	w.op(fmt.Sprintf("cancel %d", rs.id), "ok")
 	w.r.Count("cancel:" + rs.spec.plan.kind)
+}
+
+// cancelStart cancels the context handed to Manager.Start. Caller holds w.mu.
+func (w *world) cancelStart(st *startState) {
+	if st.cancelled {
+		return
+	}
+	st.cancelled = true
+	if st.cur != nil && !st.cur.returned {
+		st.cur.markCancelled()
+	}
+	st.cancel()
+	w.op(fmt.Sprintf("scancel %d", st.id), "ok")
+	w.r.Count("cancel:start:" + st.spec.plan.kind)
 }
 
 // pre runs outside the mutex before an updater step: schedule perturbation
@@ -353,19 +364,32 @@ func (w *world) hook(site, key string) {
 	case "lock.try.busy":
 		w.lastTry = 2
 		return
-	case "manager.acquire", "manager.launch", "manager.wait", "manager.drained":
+	case "manager.acquire", "manager.launch", "manager.wait", "manager.drained", "manager.start.err", "manager.start.ran":
 	default:
 		return
 	}
 	g := hx.GoID()
 	w.mu.Lock()
 	defer w.mu.Unlock()
-	r, ok := w.runOfGo[g]
-	if !ok {
+	if strings.HasPrefix(site, "manager.start.") {
+		st := w.startOfGo[g]
+		if st == nil {
+			w.stray(site)
+			return
+		}
+		if site == "manager.start.err" {
+			st.lastErr, st.hasErr = key, true
+			return
+		}
+		w.startRan(st)
+		return
+	}
+	rs := w.runOfGoroutine(g, true)
+	if rs == nil {
 		w.stray(site)
 		return
 	}
-	rs := w.runs[r]
+	r := rs.id
 	w.begin(rs)
 	ev := strings.TrimPrefix(site, "manager.")
 	if rs.returned {
@@ -401,8 +425,35 @@ func (w *world) hook(site, key string) {
 	rs.lastHook = ev
 	w.op(fmt.Sprintf("%s %d", ev, r), "ok")
 	rs.hookCount[ev]++
-	if p := rs.spec.plan; p.kind == "hook" && p.site == ev && rs.hookCount[ev] == p.n {
+	if st := rs.start; st != nil {
+		if p := st.spec.plan; p.kind == "hook" && p.run == st.k && p.site == ev && rs.hookCount[ev] == p.n {
+			w.cancelStart(st)
+		}
+	} else if p := rs.spec.plan; p.kind == "hook" && p.site == ev && rs.hookCount[ev] == p.n {
 		w.cancelLocked(rs)
+	}
+}
+
+// startRan: one m.Run(ctx) of the Start loop has returned. Caller holds w.mu.
+func (w *world) startRan(st *startState) {
+	rs := st.cur
+	if rs == nil {
+		// a Run that reached no hook point at all
+		w.newStartRun(st)
+		rs = st.cur
+	}
+	var err error
+	if st.hasErr {
+		err = errors.New(st.lastErr)
+	}
+	st.hasErr, st.lastErr = false, ""
+	w.ret(rs, err, false)
+	st.cur = nil
+	st.k++
+	w.r.Count("start:run")
+	p := st.spec.plan
+	if st.k >= p.run+1 || st.k >= 6 {
+		w.cancelStart(st)
 	}
 }
 
@@ -411,7 +462,30 @@ func (w *world) begin(rs *runState) {
 		return
 	}
 	rs.begun = true
-	w.op(fmt.Sprintf("begin %d", rs.id), fmt.Sprintf("begin %d", rs.setStatus))
+	fs := map[int]bool{}
+	for _, f := range rs.facCalls {
+		for n, ref := range rs.view.facs {
+			if !ref.static && ref.ext == f {
+				fs[n] = true
+			}
+		}
+	}
+	// the static out-of-tree set is a closure of package driver: its being
+	// called cannot be observed, the answer for it is taken over
+	if ref, ok := rs.view.facs[0]; ok && ref.static {
+		fs[0] = true
+	}
+	w.op(fmt.Sprintf("begin %d", rs.id), fmt.Sprintf("begin f=%s s=%d c=%s", csv(sortedKeys(fs)), rs.setStatus, pairsStr(rs.cfgCalls)))
+	// every factory of the manager is asked exactly once per run
+	seen := map[int]int{}
+	for _, f := range rs.facCalls {
+		seen[f]++
+	}
+	for n, ref := range rs.view.facs {
+		if !ref.static && seen[ref.ext] != 1 {
+			w.fail("", fmt.Sprintf("factory-asked-%d-times-in-one-run run=%d factory=%s", seen[ref.ext], rs.id, facName(n)))
+		}
+	}
 }
 
 // ---- lock source wrapper --------------------------------------------------------
@@ -434,14 +508,18 @@ func (l *lockSrc) TryLock(ctx context.Context, key string) (context.Context, con
 	w.preStore()
 	w.mu.Lock()
 	defer w.mu.Unlock()
-	if rr, isRun := w.runOfGo[g]; isRun {
+	if rs := w.runOfGoroutine(g, false); rs != nil {
 		// the garbage-collection lock taken by Run itself
+		rr := rs.id
 		w.r.Count("gc:trylock")
 		w.lastTry = 0
 		c, f := l.real.TryLock(ctx, key)
 		if key != "garbage-collection" || w.lastTry == 0 {
 			w.stray("run-trylock")
 			return c, f
+		}
+		if !rs.drainedSeen {
+			w.fail("", fmt.Sprintf("gc-lock-taken-before-the-final-wait run=%d", rr))
 		}
 		out := "busy"
 		if w.lastTry == 1 {
@@ -468,6 +546,13 @@ func (l *lockSrc) TryLock(ctx context.Context, key string) (context.Context, con
 		}
 	}
 	r, okr := ctx.Value(runKey{}).(int)
+	if okr && r < 0 {
+		// a worker of a run made by Manager.Start
+		okr = false
+		if sid := -1 - r; sid < len(w.starts) && w.starts[sid].cur != nil {
+			r, okr = w.starts[sid].cur.id, true
+		}
+	}
 	inst, oki := w.lastName[g]
 	w.lastTry = 0
 	c, f := l.real.TryLock(ctx, key)
@@ -494,7 +579,7 @@ func (l *lockSrc) TryLock(ctx context.Context, key string) (context.Context, con
 	if old := w.byKey[[2]int{r, inst}]; old != nil {
 		w.fail("", fmt.Sprintf("updater-started-twice-in-one-run run=%d updater=%s", r, key))
 	}
-	if !w.sc.configured(rs.mgr)[inst] {
+	if !w.sc.configured(rs.view)[inst] {
 		w.fail("", fmt.Sprintf("unconfigured-updater-started run=%d updater=%s", r, key))
 	}
 	if wk.lock == "busy" {
@@ -519,8 +604,8 @@ func (l *lockSrc) TryLock(ctx context.Context, key string) (context.Context, con
 	w.byKey[[2]int{r, inst}] = wk
 	rs.workers = append(rs.workers, wk)
 	rs.active++
-	if rs.active > rs.mgr.batch {
-		w.fail("", fmt.Sprintf("more-updaters-in-flight-than-batch-size run=%d in-flight=%d batch=%d", r, rs.active, rs.mgr.batch))
+	if rs.active > rs.view.batch {
+		w.fail("", fmt.Sprintf("more-updaters-in-flight-than-batch-size run=%d in-flight=%d batch=%d", r, rs.active, rs.view.batch))
 	}
 	w.r.Count("trylock:" + wk.lock)
 	w.emit(wk, "try", wk.lock)
@@ -543,6 +628,9 @@ func (w *world) workerDone(wk *worker, f context.CancelFunc) {
 	}
 	if rs.returned {
 		w.fail("", fmt.Sprintf("updater-finished-after-Run-returned run=%d updater=%s", wk.run, nameStr(wk.sc.name)))
+	}
+	if wk.body != nil && wk.body.closes == 0 {
+		w.fail("", fmt.Sprintf("fetched-contents-never-closed run=%d updater=%s fetch=%s", wk.run, nameStr(wk.sc.name), wk.fetchRes))
 	}
 	w.emit(wk, "done", "done")
 	f()
@@ -601,7 +689,7 @@ func (w *world) ret(rs *runState, err error, panicked bool) {
 		w.fail("", fmt.Sprintf("Run-returned-without-waiting run=%d", rs.id))
 	}
 	// every configured updater is run (unless the context was cancelled while launching)
-	conf := w.sc.configured(rs.mgr)
+	conf := w.sc.configured(rs.view)
 	if !rs.cancelledPreWait {
 		var missing []string
 		for i := range conf {
@@ -612,6 +700,10 @@ func (w *world) ret(rs *runState, err error, panicked bool) {
 		if len(missing) > 0 {
 			sort.Strings(missing)
 			w.fail("", fmt.Sprintf("configured-updaters-not-run run=%d missing=%s", rs.id, strings.Join(missing, ",")))
+		}
+		// the updaters handed to WithOutOfTree are configured updaters as well
+		if len(rs.view.droppedOOT) > 0 {
+			w.fail("enabled-drops-out-of-tree", fmt.Sprintf("out-of-tree-updaters-not-run-because-WithEnabled-came-after-WithOutOfTree run=%d missing=%d", rs.id, len(rs.view.droppedOOT)))
 		}
 	}
 	// a failed updater is named in the returned error (and only failed ones are)
@@ -625,23 +717,32 @@ func (w *world) ret(rs *runState, err error, panicked bool) {
 	if csv(want) != csv(names) {
 		w.fail("", fmt.Sprintf("returned-error-does-not-name-the-failed-updaters run=%d failed=%s named=%s", rs.id, csv(want), csv(names)))
 	}
-	if want := planStubs(w.sc, rs.mgr); want != rs.setStatus {
+	if want := w.sc.stubSets(rs.view); want != rs.setStatus {
 		w.fail("", fmt.Sprintf("stub-updater-set-status-calls run=%d want=%d got=%d", rs.id, want, rs.setStatus))
 	}
-	if rs.mgr.retention == 0 && rs.gcCalls > 0 {
+	if rs.view.retention == 0 && rs.gcCalls > 0 {
 		w.fail("", fmt.Sprintf("gc-ran-without-retention run=%d", rs.id))
 	}
-}
-
-func planStubs(s *scenario, m mgrSpec) int {
-	n := 0
-	for _, fid := range m.facs() {
-		f := s.facs[fid]
-		if f.ok && len(f.members) == 1 && s.scripts[f.members[0]].name == 0 {
-			n++
+	// every Configurable updater of a constructed, non-stub set is configured exactly once per run
+	cfgd := map[int]int{}
+	for _, c := range rs.cfgCalls {
+		cfgd[c[0]]++
+	}
+	for _, f := range rs.view.facs {
+		mem, ok := w.sc.refMembers(f)
+		if !ok || w.sc.isStub(mem) {
+			continue
+		}
+		for _, i := range mem {
+			want := 0
+			if w.sc.scripts[i].cfg != 0 {
+				want = 1
+			}
+			if cfgd[i] != want {
+				w.fail("", fmt.Sprintf("updater-configured-%d-times-in-one-run run=%d updater=%s want=%d", cfgd[i], rs.id, nameStr(w.sc.scripts[i].name), want))
+			}
 		}
 	}
-	return n
 }
 
 // checkWorkers is the per-updater half of the statement, evaluated on the
@@ -679,8 +780,14 @@ func (w *world) checkWorkers() {
 			if wk.parsed && wk.fetchRes != "ok" {
 				w.fail("", fmt.Sprintf("parsed-after-fetch=%s %s", wk.fetchRes, who))
 			}
+			if wk.getOk && !wk.fetched {
+				w.fail("", "updater-not-fetched "+who)
+			}
+			if !wk.getOk && wk.fetched {
+				w.fail("", "fetched-although-the-previous-fingerprint-could-not-be-read "+who)
+			}
 			for _, c := range wk.stores {
-				wantM := map[byte]byte{'p': 'v', 'd': 'd', 'e': 'e'}[sc.kind]
+				wantM := map[byte]byte{'p': 'v', 'd': 'd', 'e': 'e', 'x': 'e'}[sc.kind]
 				ok := c.method == wantM && c.name == sc.name && c.fp == wk.newFP && csv(c.vulns) == csv(sc.vulns)
 				if sc.kind == 'd' && csv(c.deleted) != csv(sc.deleted) {
 					ok = false
@@ -690,18 +797,355 @@ func (w *world) checkWorkers() {
 						c.method, nameStr(c.name), c.fp, csv(c.vulns), csv(c.deleted), wantM, nameStr(sc.name), wk.newFP, csv(sc.vulns), csv(sc.deleted), who))
 				}
 			}
-			if wk.statusCalls != 1 {
-				w.fail("", fmt.Sprintf("updater-status-recorded-%d-times %s", wk.statusCalls, who))
-			} else if wk.statusFailed != wk.failed {
-				w.fail("", fmt.Sprintf("updater-status-failure-flag=%v but-steps-failed=%v %s", wk.statusFailed, wk.failed, who))
+			// RecordUpdaterStatus: once, whatever the outcome, with the updater's
+			// name, the fingerprint Fetch returned (none if it was never
+			// called) and the error driveUpdater returns
+			wantFP := 0
+			if wk.fetched {
+				wantFP = wk.newFP
+			}
+			switch {
+			case wk.statusCalls != 1:
+				w.fail("", fmt.Sprintf("updater-status-recorded-%d-times outcome=%s %s", wk.statusCalls, wk.outcome(), who))
+			case wk.statusFailed != wk.failed:
+				w.fail("", fmt.Sprintf("updater-status-failure-flag=%v but-steps-failed=%v outcome=%s %s", wk.statusFailed, wk.failed, wk.outcome(), who))
+			case wk.statusName != sc.name || wk.statusFP != wantFP:
+				w.fail("", fmt.Sprintf("updater-status-recorded-as=%s/fp%d want=%s/fp%d outcome=%s %s", nameStr(wk.statusName), wk.statusFP, nameStr(sc.name), wantFP, wk.outcome(), who))
+			}
+			if wk.body != nil && wk.body.closes != 1 {
+				w.fail("", fmt.Sprintf("fetched-contents-closed-%d-times fetch=%s %s", wk.body.closes, wk.fetchRes, who))
 			}
 		}
 	}
 }
 
+// setUp runs the set-up operations of the scenario against the real code, in
+// protocol order: UpdaterSet algebra, factory declarations, registry,
+// NewManager with its options.  Nothing else runs yet (single goroutine); the
+// callbacks NewManager makes take w.mu themselves.
+func (w *world) setUp(sc *scenario) []*updates.Manager {
+	// driver.UpdaterSet
+	for _, u := range sc.usetOps {
+		for u.set >= len(w.usets) || (u.op == "merge" && u.arg >= len(w.usets)) {
+			s := driver.NewUpdaterSet()
+			w.usets = append(w.usets, &s)
+		}
+		set := w.usets[u.set]
+		var out string
+		switch u.op {
+		case "add":
+			err := set.Add(w.ups[u.arg])
+			out = "ok"
+			var ee driver.ErrExists
+			if errors.As(err, &ee) {
+				out = "exists"
+				if len(ee.Updater) != 1 || ee.Updater[0] != nameStr(sc.scripts[u.arg].name) {
+					w.fail("", fmt.Sprintf("UpdaterSet.Add-error-names=%v want=%s", ee.Updater, nameStr(sc.scripts[u.arg].name)))
+				}
+			} else if err != nil {
+				out = "err"
+			}
+		case "merge":
+			err := set.Merge(*w.usets[u.arg])
+			out = "ok"
+			var ee driver.ErrExists
+			if errors.As(err, &ee) {
+				var ns []int
+				for _, n := range ee.Updater {
+					ns = append(ns, nameNum(n))
+				}
+				sort.Ints(ns)
+				out = "exists " + csv(ns)
+			} else if err != nil {
+				out = "err"
+			}
+		case "filter":
+			out = okErr(set.RegexFilter(patRegexp(u.pat)) == nil)
+		case "list":
+			var is []int
+			names := map[string]int{}
+			for _, x := range set.Updaters() {
+				i := w.instOf(x)
+				is = append(is, i)
+				if i >= 0 && i < len(sc.scripts) {
+					names[nameStr(sc.scripts[i].name)]++
+				}
+			}
+			sort.Ints(is)
+			out = "set " + csv(is)
+			for n, c := range names {
+				if c > 1 {
+					w.fail("", fmt.Sprintf("UpdaterSet-holds-%d-updaters-named-%s", c, n))
+				}
+			}
+		}
+		w.r.Count("uset:" + u.op + ":" + strings.Fields(out)[0])
+		w.op(u.line(), out)
+	}
+	for len(w.usets) < sc.usetCount() {
+		s := driver.NewUpdaterSet()
+		w.usets = append(w.usets, &s)
+	}
+	for _, f := range sc.facs {
+		w.op(f.decl(), "ok")
+	}
+	// the registry
+	for _, n := range registeredNames() {
+		if f, ok := w.regBind[n]; ok {
+			w.op(fmt.Sprintf("regdecl %d %d", n, f), "ok")
+		}
+	}
+	for _, o := range sc.regOps {
+		switch o.op {
+		case "register":
+			was := false
+			for _, n := range registeredNames() {
+				was = was || n == o.name
+			}
+			out := doRegister(o.name)
+			if was != (out == "panic") {
+				w.fail("", fmt.Sprintf("Register(%s)=%s although-registered-before=%v", facName(o.name), out, was))
+			}
+			w.r.Count("registry:register:" + out)
+			w.op(fmt.Sprintf("register %d %d", o.name, o.fac), out)
+		case "registered":
+			out, intact := doRegistered()
+			if !intact {
+				w.fail("", "Registered-hands-out-its-own-map: damaging the result changed the registry")
+			}
+			w.r.Count("registry:registered")
+			w.op("registered", out)
+		}
+	}
+	// managers
+	reg := map[int]int{}
+	for _, n := range registeredNames() {
+		if f, ok := w.regBind[n]; ok {
+			reg[n] = f
+		}
+	}
+	facObjs := make([]driver.UpdaterSetFactory, len(sc.facs))
+	for i, f := range sc.facs {
+		facObjs[i] = w.mkFactory(f)
+	}
+	mgrs := make([]*updates.Manager, len(sc.mgrs))
+	w.views = make([]mgrView, len(sc.mgrs))
+	w.mgrOK = make([]bool, len(sc.mgrs))
+	defBatch := runtime.GOMAXPROCS(0)
+	for mi, m := range sc.mgrs {
+		var opts []updates.ManagerOption
+		var shared []map[string]driver.UpdaterSetFactory
+		for _, o := range m.opts {
+			switch o.kind {
+			case "b":
+				opts = append(opts, updates.WithBatchSize(o.n))
+			case "i":
+				opts = append(opts, updates.WithInterval(time.Duration(o.n)*time.Microsecond))
+			case "gc":
+				opts = append(opts, updates.WithGC(o.n))
+			case "en":
+				if o.isNil {
+					opts = append(opts, updates.WithEnabled(nil))
+					break
+				}
+				names := []string{}
+				for _, e := range o.list {
+					names = append(names, facName(e))
+				}
+				opts = append(opts, updates.WithEnabled(names))
+			case "cf":
+				cfgs := updates.Configs{}
+				for _, c := range o.cfgs {
+					k := nameStr(c.name)
+					if c.fac {
+						k = facName(c.name)
+					}
+					cfgs[k] = mkCfg(c.id)
+				}
+				opts = append(opts, updates.WithConfigs(cfgs))
+			case "oot":
+				var us []driver.Updater
+				for _, i := range o.list {
+					us = append(us, w.ups[i])
+				}
+				opts = append(opts, updates.WithOutOfTree(us))
+			case "fs":
+				var given map[string]driver.UpdaterSetFactory
+				if !o.isNil {
+					given = map[string]driver.UpdaterSetFactory{}
+					for _, p := range o.pairs {
+						given[facName(p[0])] = facObjs[p[1]]
+					}
+					shared = append(shared, given)
+				}
+				opts = append(opts, updates.WithFactories(given))
+			}
+		}
+		sizes := make([]int, len(shared))
+		for i, g := range shared {
+			sizes[i] = len(g)
+		}
+		client := w.client
+		if m.clientNil {
+			client = nil
+		}
+		w.facCfgCalls = nil
+		var mgr *updates.Manager
+		var err error
+		out := hx.Guard(func() string {
+			mgr, err = updates.NewManager(context.Background(), w.store, &lockSrc{w: w, real: w.locks}, client, opts...)
+			return ""
+		})
+		v := sc.view(m, defBatch, reg)
+		w.views[mi] = v
+		// the Configure calls NewManager made, by factory name
+		var calls [][2]int
+		cfgd := map[int]int{}
+		for _, c := range w.facCfgCalls {
+			cfgd[c[0]]++
+			for n, ref := range v.facs {
+				if !ref.static && ref.ext == c[0] {
+					calls = append(calls, [2]int{n, c[1]})
+					if want := v.cfgID(true, n); want != c[1] {
+						w.fail("", fmt.Sprintf("factory-configured-with-the-wrong-config factory=%s got=%d want=%d", facName(n), c[1], want))
+					}
+				}
+			}
+		}
+		line := fmt.Sprintf("newmgr %d %s %d %d %s", mi, b01(!m.clientNil), defBatch, defIntervalMicros, m.tokens())
+		line = strings.TrimRight(line, " ")
+		switch {
+		case out == "panic":
+			w.r.Count("newmgr:panic")
+			w.op(line, "panic")
+			w.fail("", "NewManager-panicked manager="+fmt.Sprint(mi))
+		case err != nil:
+			w.r.Count("newmgr:err")
+			w.op(line, "err c="+pairsStr(calls))
+			if v.retention != 1 && !m.clientNil {
+				failing := false
+				for _, ref := range v.facs {
+					if !ref.static && sc.facs[ref.ext].fcfg == 2 {
+						failing = true
+					}
+				}
+				if !failing {
+					w.fail("", "NewManager-failed-without-a-reason: "+err.Error())
+				}
+			}
+		default:
+			w.r.Count("newmgr:ok")
+			mgrs[mi] = mgr
+			w.mgrOK[mi] = true
+			b, iv, ret, _ := mgr.SettingsForVerif()
+			w.op(line, fmt.Sprintf("ok f=%s b=%d i=%d r=%d c=%s", w.showFactories(mgr), b, int64(iv/time.Microsecond), ret, pairsStr(calls)))
+			if v.retention == 1 {
+				w.fail("", "NewManager-accepted-retention-1")
+			}
+			if m.clientNil {
+				w.fail("", "NewManager-accepted-a-nil-http-client")
+			}
+			// every Configurable factory of the manager was configured exactly once
+			for n, ref := range v.facs {
+				if ref.static {
+					continue
+				}
+				want := 0
+				if sc.facs[ref.ext].fcfg != 0 {
+					want = 1
+				}
+				if cfgd[ref.ext] != want {
+					w.fail("", fmt.Sprintf("factory-configured-%d-times factory=%s want=%d", cfgd[ref.ext], facName(n), want))
+				}
+			}
+		}
+		// the caller's factory maps are the caller's: NewManager and its options do not write to them
+		for i, g := range shared {
+			if len(g) != sizes[i] {
+				w.fail("", fmt.Sprintf("options-wrote-into-the-callers-factory-map manager=%d size-before=%d after=%d", mi, sizes[i], len(g)))
+			}
+		}
+	}
+	return mgrs
+}
+
+// showFactories renders the real manager's factory map like the model does.
+func (w *world) showFactories(m *updates.Manager) string {
+	fs := m.FactoriesForVerif()
+	var names []int
+	by := map[int]string{}
+	for k, f := range fs {
+		n := facNum(k)
+		names = append(names, n)
+		switch x := f.(type) {
+		case *facObj:
+			by[n] = fmt.Sprintf("e%d", x.spec.id)
+		case *cfgFacObj:
+			by[n] = fmt.Sprintf("e%d", x.spec.id)
+		case *regSlot:
+			by[n] = fmt.Sprintf("e%d", w.regBind[x.name])
+		case *cfgRegSlot:
+			by[n] = fmt.Sprintf("e%d", w.regBind[x.name])
+		default:
+			// the StaticSet of WithOutOfTree
+			set, err := f.UpdaterSet(context.Background())
+			if err != nil {
+				by[n] = "?"
+				break
+			}
+			var is []int
+			for _, u := range set.Updaters() {
+				is = append(is, w.instOf(u))
+			}
+			sort.Ints(is)
+			ss := make([]string, len(is))
+			for i, x := range is {
+				ss[i] = fmt.Sprint(x)
+			}
+			by[n] = "s" + strings.Join(ss, "+")
+		}
+	}
+	if len(names) == 0 {
+		return "-"
+	}
+	sort.Ints(names)
+	out := make([]string, len(names))
+	for i, n := range names {
+		out[i] = fmt.Sprintf("%d=%s", n, by[n])
+	}
+	return strings.Join(out, ",")
+}
+
+func (w *world) instOf(u driver.Updater) int {
+	for i, x := range w.ups {
+		if x == u {
+			return i
+		}
+	}
+	return 999999
+}
+
+// patRegexp is the regular expression of a filter pattern of the protocol.
+func patRegexp(pat string) string {
+	switch {
+	case pat == "any":
+		return ".*"
+	case pat == "none":
+		return "^$"
+	case strings.HasPrefix(pat, "exact:"):
+		return "^u" + pat[6:] + "$"
+	case strings.HasPrefix(pat, "prefix:"):
+		return "^u" + pat[7:]
+	case strings.HasPrefix(pat, "suffix:"):
+		return pat[7:] + "$"
+	}
+	return "(" // "bad": does not compile
+}
+
 func runScenario(r *hx.Run, seed uint64, idx int, sc *scenario) bool {
-	w := &world{r: r, sc: sc, idx: idx, seed: seed, lastName: map[int64]int{}, runOfGo: map[int64]int{}, worker: map[int64]*worker{},
-		byKey: map[[2]int]*worker{}, driving: map[int]*worker{}, configured: map[int]int{}, flags: map[string]bool{}, silent: sc.silent}
+	w := &world{r: r, sc: sc, idx: idx, seed: seed, lastName: map[int64]int{}, runOfGo: map[int64]int{}, startOfGo: map[int64]*startState{},
+		worker: map[int64]*worker{}, byKey: map[[2]int]*worker{}, driving: map[int]*worker{}, configured: map[int]int{}, silent: sc.silent,
+		client: &http.Client{}, regBind: map[int]int{}, locks: updates.NewLocalLockSource()}
 	w.store = &store{w: w}
 	for _, h := range sc.hist {
 		k := driver.VulnerabilityKind
@@ -709,6 +1153,9 @@ func runScenario(r *hx.Run, seed uint64, idx int, sc *scenario) bool {
 			k = driver.EnrichmentKind
 		}
 		w.store.ops = append([]storedOp{{kind: k, name: nameStr(h.name), fp: fpStr(h.fp)}}, w.store.ops...)
+	}
+	for n, f := range sc.regBind {
+		w.regBind[n] = f
 	}
 	if !sc.silent {
 		r.Op("reset", "ok", false)
@@ -720,58 +1167,40 @@ func runScenario(r *hx.Run, seed uint64, idx int, sc *scenario) bool {
 	defer runtime.GOMAXPROCS(old)
 	verifhook.Install(w.hook)
 	defer verifhook.Install(nil)
+	curWorld.Store(w)
+	defer curWorld.Store(nil)
 
-	ups := make([]driver.Updater, len(sc.scripts))
+	w.ups = make([]driver.Updater, len(sc.scripts))
 	for i, s := range sc.scripts {
-		ups[i] = w.mkUpdater(s)
+		w.ups[i] = w.mkUpdater(s)
 	}
-	locks := &lockSrc{w: w, real: updates.NewLocalLockSource()}
-	mgrs := make([]*updates.Manager, len(sc.mgrs))
-	for mi, m := range sc.mgrs {
-		facs := map[string]driver.UpdaterSetFactory{}
-		for _, fid := range m.given {
-			f := sc.facs[fid]
-			facs[fmt.Sprintf("f%d", fid)] = driver.UpdaterSetFactoryFunc(func(context.Context) (driver.UpdaterSet, error) {
-				if !f.ok {
-					return driver.UpdaterSet{}, fmt.Errorf("scripted factory failure")
-				}
-				set := driver.NewUpdaterSet()
-				for _, i := range f.members {
-					if err := set.Add(ups[i]); err != nil {
-						return set, err
-					}
-				}
-				return set, nil
-			})
-		}
-		opts := []updates.ManagerOption{updates.WithFactories(facs), updates.WithBatchSize(m.batch)}
-		if m.enabled != nil {
-			names := []string{}
-			for _, e := range m.enabled {
-				names = append(names, fmt.Sprintf("f%d", e))
-			}
-			opts = append(opts, updates.WithEnabled(names))
-		}
-		if m.oot >= 0 {
-			var us []driver.Updater
-			for _, i := range sc.facs[m.oot].members {
-				us = append(us, ups[i])
-			}
-			opts = append(opts, updates.WithOutOfTree(us))
-		}
-		if m.retention != 0 {
-			opts = append(opts, updates.WithGC(m.retention))
-		}
-		mgr, err := updates.NewManager(context.Background(), w.store, locks, http.DefaultClient, opts...)
-		if err != nil {
-			w.fail("", "NewManager: "+err.Error())
-			return false
-		}
-		mgrs[mi] = mgr
-	}
+	mgrs := w.setUp(sc)
+
+	// the runs and Start calls of the scenario
+	w.mu.Lock()
+	startOf := map[int]*startState{}
 	for ri, spec := range sc.runs {
-		w.runs = append(w.runs, &runState{id: ri, spec: spec, mgr: sc.mgrs[spec.mgr], gate: make(chan struct{}), hookCount: map[string]int{}, done: make(chan struct{})})
+		rs := &runState{id: ri, spec: spec, gate: make(chan struct{}), hookCount: map[string]int{}, done: make(chan struct{})}
+		if w.mgrOK[spec.mgr] {
+			rs.view = w.views[spec.mgr]
+		}
+		w.runs = append(w.runs, rs)
+		if !w.mgrOK[spec.mgr] {
+			continue
+		}
+		if spec.start {
+			// the runs a Start call makes are numbered as they appear; the slot keeps the indices of plain runs stable
+			rs.placeholder, rs.returned = true, true
+			rs.openGate()
+			st := &startState{id: len(w.starts), spec: spec, view: w.views[spec.mgr], done: make(chan struct{})}
+			w.starts = append(w.starts, st)
+			startOf[ri] = st
+			w.op(fmt.Sprintf("startdecl %d %d", st.id, spec.mgr), "ok")
+			continue
+		}
+		w.op(fmt.Sprintf("run %d %d", ri, spec.mgr), "ok")
 	}
+	w.mu.Unlock()
 	maxPhase := 0
 	for _, spec := range sc.runs {
 		if spec.phase > maxPhase {
@@ -812,11 +1241,63 @@ func runScenario(r *hx.Run, seed uint64, idx int, sc *scenario) bool {
 			w.mu.Unlock()
 		}()
 	}
-	// runs that begin while another run is inside store.GC (holding the GC lock)
-	w.gcHook = func(run int) {
-		for _, rs := range w.runs {
+	startLoop := func(st *startState) {
+		ctx, cancel := context.WithCancel(context.WithValue(context.Background(), runKey{}, -1-st.id))
+		w.mu.Lock()
+		st.cancel = cancel
+		if st.spec.plan.kind == "before" {
+			w.cancelStart(st)
+		}
+		w.mu.Unlock()
+		go func() {
+			defer close(st.done)
 			w.mu.Lock()
-			mine := rs.spec.startGC == run+1 && !rs.started
+			w.startOfGo[hx.GoID()] = st
+			w.mu.Unlock()
+			var err error
+			out := hx.Guard(func() string { err = mgrs[st.spec.mgr].Start(ctx); return "" })
+			w.mu.Lock()
+			defer w.mu.Unlock()
+			st.returned = true
+			switch {
+			case out == "panic":
+				w.op(fmt.Sprintf("sret %d", st.id), "panic")
+				w.fail("", fmt.Sprintf("Start-panicked start=%d", st.id))
+			case !st.begun:
+				// returned without running anything: only a missing interval allows that
+				st.begun = true
+				res := "returned-without-a-run"
+				if err != nil && !errors.Is(err, context.Canceled) && st.view.interval == 0 {
+					res = "interval-error"
+				}
+				w.op(fmt.Sprintf("sbegin %d", st.id), res)
+				w.r.Count("start:" + res)
+				if res != "interval-error" {
+					w.fail("", fmt.Sprintf("Start-returned-without-the-initial-run start=%d err=%v", st.id, err))
+				}
+			default:
+				res := "ctx-error"
+				if !errors.Is(err, context.Canceled) {
+					res = fmt.Sprintf("returned-error=%v", err != nil)
+				}
+				if st.cur != nil {
+					w.fail("", fmt.Sprintf("Start-returned-inside-a-run start=%d run=%d", st.id, st.cur.id))
+				}
+				if !st.cancelled {
+					w.fail("", fmt.Sprintf("Start-returned-although-its-context-is-live start=%d err=%v", st.id, err))
+				}
+				w.op(fmt.Sprintf("sret %d", st.id), res)
+				w.r.Count(fmt.Sprintf("start:returned-after-runs=%d", min(st.k, 4)))
+			}
+		}()
+	}
+	// runs that begin while another run is inside store.GC (holding the GC lock)
+	nstatic := len(sc.runs)
+	w.gcHook = func(run int) {
+		for ri := 0; ri < nstatic; ri++ {
+			w.mu.Lock()
+			rs := w.runs[ri]
+			mine := rs.spec.startGC == run+1 && !rs.started && !rs.placeholder && w.mgrOK[rs.spec.mgr]
 			w.mu.Unlock()
 			if !mine {
 				continue
@@ -828,7 +1309,7 @@ func runScenario(r *hx.Run, seed uint64, idx int, sc *scenario) bool {
 				w.mu.Lock()
 				n, fin := len(rs.workers), rs.returned
 				w.mu.Unlock()
-				if fin || n >= len(w.sc.configured(rs.mgr)) {
+				if fin || n >= len(w.sc.configured(rs.view)) {
 					break
 				}
 				time.Sleep(50 * time.Microsecond)
@@ -837,8 +1318,18 @@ func runScenario(r *hx.Run, seed uint64, idx int, sc *scenario) bool {
 	}
 	for ph := 0; ph <= maxPhase && !hung; ph++ {
 		var cur []*runState
-		for _, rs := range w.runs {
-			if rs.spec.phase != ph {
+		var curStarts []*startState
+		for ri := 0; ri < nstatic; ri++ {
+			w.mu.Lock()
+			rs := w.runs[ri]
+			w.mu.Unlock()
+			if rs.spec.phase != ph || !w.mgrOK[rs.spec.mgr] {
+				continue
+			}
+			if rs.placeholder {
+				st := startOf[ri]
+				curStarts = append(curStarts, st)
+				startLoop(st)
 				continue
 			}
 			cur = append(cur, rs)
@@ -869,16 +1360,38 @@ func runScenario(r *hx.Run, seed uint64, idx int, sc *scenario) bool {
 				rs.openGate()
 			}
 		}
+		for _, st := range curStarts {
+			select {
+			case <-st.done:
+			case <-time.After(60 * time.Second):
+				w.mu.Lock()
+				w.fail("", fmt.Sprintf("Start-did-not-return-within-60s start=%d runs=%d cancelled=%v", st.id, st.k, st.cancelled))
+				w.mu.Unlock()
+				hung = true
+			}
+		}
 	}
 	tmu.Lock()
 	for _, t := range timers {
 		t.Stop()
 	}
 	tmu.Unlock()
-	for _, rs := range w.runs {
+	w.mu.Lock()
+	all := append([]*runState{}, w.runs...)
+	sts := append([]*startState{}, w.starts...)
+	w.mu.Unlock()
+	for _, rs := range all {
 		rs.openGate()
 		w.mu.Lock()
 		c := rs.cancel
+		w.mu.Unlock()
+		if c != nil {
+			c()
+		}
+	}
+	for _, st := range sts {
+		w.mu.Lock()
+		c := st.cancel
 		w.mu.Unlock()
 		if c != nil {
 			c()
@@ -899,379 +1412,10 @@ func runScenario(r *hx.Run, seed uint64, idx int, sc *scenario) bool {
 			nontrivial = true
 		}
 	}
+	if len(sc.usetOps) > 0 || len(sc.regOps) > 0 || len(w.starts) > 0 {
+		nontrivial = true
+	}
 	w.mu.Unlock()
-	r.Case(fmt.Sprintf("scenario %d/%d: %s", seed, idx, strings.Join(sc.decls(), ";")), nontrivial)
+	r.Case(fmt.Sprintf("scenario %d/%d: %s", seed, idx, sc.dump()), nontrivial)
 	return !hung
-}
-
-// ---- generator -------------------------------------------------------------------
-
-func pickN(rnd *hx.Rand, n, lo, hi int) []int {
-	out := make([]int, n)
-	for i := range out {
-		out[i] = lo + rnd.Intn(hi-lo+1)
-	}
-	return out
-}
-
-func genScenario(rnd *hx.Rand, r *hx.Run) *scenario {
-	sc := &scenario{procs: 1 + rnd.Intn(16), yieldAll: rnd.Chance(1, 3)}
-	var n int
-	switch c := rnd.Intn(100); {
-	case c < 8:
-		n = rnd.Intn(2)
-	case c < 60:
-		n = 2 + rnd.Intn(7)
-	case c < 90:
-		n = 9 + rnd.Intn(22)
-	default:
-		n = 31 + rnd.Intn(70)
-	}
-	r.Count(fmt.Sprintf("size:updaters<=%d", bucket(n)))
-	nfac := 1 + rnd.Intn(4)
-	if n == 0 {
-		nfac = rnd.Intn(2)
-	}
-	facOf := make([]int, n)
-	sc.facs = make([]facSpec, nfac)
-	for f := range sc.facs {
-		sc.facs[f] = facSpec{id: f, ok: true}
-	}
-	retention := 0
-	if rnd.Chance(1, 5) {
-		retention = 2 + rnd.Intn(5)
-	}
-	dups := rnd.Chance(3, 10)
-	usedIn := make([]map[int]bool, nfac)
-	for f := range usedIn {
-		usedIn[f] = map[int]bool{}
-	}
-	faulty := rnd.Chance(7, 10) // scenarios without any scripted failure are kept as well
-	for i := 0; i < n; i++ {
-		f := rnd.Intn(nfac)
-		facOf[i] = f
-		s := &script{inst: i, name: 2 + i, kind: "ppde"[rnd.Intn(4)], getOk: true, parseOk: true, storeOk: true}
-		if dups && i > 0 && rnd.Chance(1, 3) {
-			k := rnd.Intn(i)
-			if nm := sc.scripts[k].name; !usedIn[f][nm] {
-				s.name = nm
-				r.Count("gen:duplicate-name")
-			}
-		}
-		if rnd.Chance(1, 50) && !usedIn[f][1] {
-			// an updater called "garbage-collection": with GC enabled the name collides with the
-			// manager's own lock (finding gc-lock-name-collision)
-			s.name = 1
-		}
-		usedIn[f][s.name] = true
-		switch c := rnd.Intn(10); {
-		case c < 6:
-			s.cfg = 0
-		case c < 9:
-			s.cfg = 1
-		default:
-			s.cfg = 2
-		}
-		s.src = 1 + rnd.Intn(6)
-		s.fmode = 0
-		if faulty {
-			switch c := rnd.Intn(100); {
-			case c < 60:
-			case c < 72:
-				s.fmode = 1
-			case c < 82:
-				s.fmode = 2
-			default:
-				s.fmode = 3
-			}
-			s.getOk = !rnd.Chance(1, 20)
-			s.parseOk = !rnd.Chance(1, 8)
-			s.storeOk = !rnd.Chance(1, 8)
-		} else if rnd.Chance(1, 4) {
-			s.fmode = 3
-		}
-		s.ctxAware = rnd.Chance(1, 2)
-		s.vulns = pickN(rnd, rnd.Intn(6), 1, 50)
-		if s.kind == 'd' {
-			s.deleted = pickN(rnd, rnd.Intn(4), 1, 50)
-		}
-		s.spin = rnd.Intn(4)
-		sc.scripts = append(sc.scripts, s)
-		sc.facs[f].members = append(sc.facs[f].members, i)
-	}
-	// special factories
-	if rnd.Chance(1, 6) {
-		// a factory that cannot be constructed: its members never run
-		i := len(sc.scripts)
-		sc.scripts = append(sc.scripts, &script{inst: i, name: 2 + i, kind: 'p', getOk: true, parseOk: true, storeOk: true, src: 1, fmode: 3})
-		sc.facs = append(sc.facs, facSpec{id: len(sc.facs), ok: false, members: []int{i}})
-		r.Count("gen:failing-factory")
-	}
-	if rnd.Chance(1, 6) {
-		// the stub set: one updater called rhel-all
-		i := len(sc.scripts)
-		sc.scripts = append(sc.scripts, &script{inst: i, name: 0, kind: 'p', getOk: true, parseOk: true, storeOk: true, src: 1, fmode: 3})
-		sc.facs = append(sc.facs, facSpec{id: len(sc.facs), ok: true, members: []int{i}})
-		r.Count("gen:stub-set")
-	} else if rnd.Chance(1, 10) {
-		// rhel-all next to another updater is an ordinary updater
-		i := len(sc.scripts)
-		sc.scripts = append(sc.scripts, &script{inst: i, name: 0, kind: 'p', getOk: true, parseOk: true, storeOk: true, src: 2, fmode: 0, vulns: []int{7}},
-			&script{inst: i + 1, name: 2 + i + 1, kind: 'd', getOk: true, parseOk: true, storeOk: true, src: 3, fmode: 0, vulns: []int{8}, deleted: []int{9}})
-		sc.facs = append(sc.facs, facSpec{id: len(sc.facs), ok: true, members: []int{i, i + 1}})
-		r.Count("gen:rhel-all-ordinary")
-	}
-	// prior history
-	if rnd.Chance(3, 4) {
-		for _, s := range sc.scripts {
-			if !rnd.Chance(1, 2) {
-				continue
-			}
-			for k := rnd.Intn(4); k > 0; k-- {
-				kind := byte('v')
-				if s.kind == 'e' {
-					kind = 'e'
-				}
-				if rnd.Chance(1, 5) {
-					kind = "ve"[rnd.Intn(2)]
-				}
-				fp := 1 + rnd.Intn(6)
-				if rnd.Chance(1, 3) {
-					fp = s.src
-				}
-				if rnd.Chance(1, 20) {
-					fp = 0
-				}
-				sc.hist = append(sc.hist, histOp{kind: kind, name: s.name, fp: fp})
-			}
-		}
-		// shuffle: history of different updaters is interleaved
-		for i := len(sc.hist) - 1; i > 0; i-- {
-			j := rnd.Intn(i + 1)
-			sc.hist[i], sc.hist[j] = sc.hist[j], sc.hist[i]
-		}
-		if rnd.Chance(1, 4) {
-			sc.hist = append(sc.hist, histOp{kind: 'v', name: 900 + rnd.Intn(5), fp: 1 + rnd.Intn(6)})
-		}
-	}
-	r.Count(fmt.Sprintf("size:history<=%d", bucket(len(sc.hist))))
-	// managers and runs
-	var batch int
-	switch c := rnd.Intn(10); {
-	case c < 4:
-		batch = 1 + rnd.Intn(2)
-	case c < 8:
-		batch = 3 + rnd.Intn(6)
-	default:
-		batch = 9 + rnd.Intn(24)
-	}
-	r.Count(fmt.Sprintf("size:batch<=%d", bucket(batch)))
-	allFacs := make([]int, len(sc.facs))
-	for i := range allFacs {
-		allFacs[i] = i
-	}
-	m := mgrSpec{batch: batch, given: allFacs, oot: -1, retention: retention}
-	if rnd.Chance(1, 6) && nfac > 0 {
-		// one ordinary factory is handed over through WithOutOfTree instead of WithFactories
-		m.oot = rnd.Intn(nfac)
-		m.given = nil
-		for _, f := range allFacs {
-			if f != m.oot {
-				m.given = append(m.given, f)
-			}
-		}
-		r.Count("gen:out-of-tree")
-	}
-	if rnd.Chance(1, 6) {
-		// WithEnabled: only a subset of the factories takes part
-		m.enabled = []int{}
-		for _, f := range m.given {
-			if rnd.Chance(2, 3) {
-				m.enabled = append(m.enabled, f)
-			}
-		}
-		r.Count("gen:with-enabled")
-	}
-	sc.mgrs = []mgrSpec{m}
-	mode := rnd.Intn(10)
-	switch {
-	case mode < 5:
-		sc.runs = []runSpec{{mgr: 0, phase: 0}}
-		r.Count("mode:single-run")
-	case mode < 7:
-		sc.runs = []runSpec{{mgr: 0, phase: 0}, {mgr: 0, phase: 1}}
-		if rnd.Chance(1, 3) {
-			sc.runs = append(sc.runs, runSpec{mgr: 0, phase: 2})
-		}
-		r.Count("mode:sequential-runs")
-	case mode < 9:
-		sc.runs = []runSpec{{mgr: 0, phase: 0}, {mgr: 0, phase: 0}}
-		if rnd.Chance(1, 3) {
-			sc.runs = append(sc.runs, runSpec{mgr: 0, phase: 0})
-		}
-		r.Count("mode:concurrent-runs-one-manager")
-	default:
-		// two managers (different batch sizes) sharing store and lock source
-		m2 := m
-		m2.batch = 1 + rnd.Intn(8)
-		sc.mgrs = append(sc.mgrs, m2)
-		sc.runs = []runSpec{{mgr: 0, phase: 0}, {mgr: 1, phase: 0}}
-		if rnd.Chance(1, 2) {
-			sc.runs = append(sc.runs, runSpec{mgr: 0, phase: 1})
-		}
-		r.Count("mode:concurrent-runs-two-managers")
-	}
-	for i := range sc.runs {
-		sc.runs[i].gateD = time.Duration(rnd.Intn(1500)) * time.Microsecond
-		if !rnd.Chance(35, 100) {
-			continue
-		}
-		p := &sc.runs[i].plan
-		switch c := rnd.Intn(10); {
-		case c < 1:
-			p.kind = "before"
-		case c < 5:
-			p.kind = "hook"
-			p.site = []string{"acquire", "launch", "launch", "wait"}[rnd.Intn(4)]
-			p.n = 1 + rnd.Intn(1+len(sc.scripts))
-			if p.site == "wait" {
-				p.n = 1
-			}
-		case c < 8:
-			p.kind = "event"
-			p.n = 1 + rnd.Intn(1+4*len(sc.scripts))
-		default:
-			p.kind = "timer"
-			p.n = rnd.Intn(800)
-		}
-	}
-	// gates: keep some workers in flight until the run loop has ended
-	if rnd.Chance(3, 10) && len(sc.scripts) > 0 {
-		minBatch := sc.mgrs[0].batch
-		for _, mm := range sc.mgrs {
-			if mm.batch < minBatch {
-				minBatch = mm.batch
-			}
-		}
-		k := minBatch - 1
-		timerCancel := false
-		for _, rs := range sc.runs {
-			if rs.plan.kind == "timer" {
-				timerCancel = true
-			}
-		}
-		if timerCancel && rnd.Chance(1, 2) {
-			k = minBatch // every slot is held: Run blocks in sem.Acquire until the cancellation
-		}
-		if k > 3 {
-			k = 3
-		}
-		for ; k > 0; k-- {
-			sc.scripts[rnd.Intn(len(sc.scripts))].gate = true
-		}
-		r.Count("gen:gated")
-	}
-	return sc
-}
-
-func bucket(n int) int {
-	for _, b := range []int{0, 1, 2, 4, 8, 16, 32, 64, 128} {
-		if n <= b {
-			return b
-		}
-	}
-	return 1 << 20
-}
-
-// ---- fixed scenarios run first on every run ------------------------------------
-
-func ok(inst, name int, kind byte, src int, vulns ...int) *script {
-	return &script{inst: inst, name: name, kind: kind, getOk: true, parseOk: true, storeOk: true, src: src, vulns: vulns}
-}
-
-func fixedScenarios() []*scenario {
-	one := func(ss []*script, hist []histOp, batch int, runs []runSpec) *scenario {
-		f := facSpec{id: 0, ok: true}
-		for _, s := range ss {
-			f.members = append(f.members, s.inst)
-		}
-		return &scenario{scripts: ss, facs: []facSpec{f}, hist: hist, mgrs: []mgrSpec{{batch: batch, given: []int{0}, oot: -1}}, runs: runs, procs: 4}
-	}
-	var out []*scenario
-	// fingerprint round trip: the second run sees the fingerprint the first stored
-	out = append(out, one([]*script{ok(0, 2, 'p', 3, 1, 2), ok(1, 3, 'd', 4, 5), ok(2, 4, 'e', 5, 6)},
-		[]histOp{{'v', 2, 1}, {'e', 2, 3}, {'v', 4, 5}, {'v', 3, 4}}, 2, []runSpec{{phase: 0}, {phase: 1}}))
-	// one of each failure next to a healthy updater
-	f1, f2, f3, f4 := ok(1, 3, 'p', 2, 1), ok(2, 4, 'd', 2, 1), ok(3, 5, 'e', 2, 1), ok(4, 6, 'p', 2, 1)
-	f1.fmode = 1
-	f2.parseOk = false
-	f3.storeOk = false
-	f4.getOk = false
-	out = append(out, one([]*script{ok(0, 2, 'p', 3, 1, 2), f1, f2, f3, f4}, nil, 1, []runSpec{{phase: 0}}))
-	// two concurrent runs over the same updaters, workers held in flight
-	g0, g1 := ok(0, 2, 'p', 3, 1), ok(1, 3, 'd', 4, 2)
-	g0.gate, g1.gate = true, true
-	g1.deleted = []int{9}
-	out = append(out, one([]*script{g0, g1, ok(2, 4, 'e', 5, 3)}, nil, 3, []runSpec{{phase: 0, gateD: 300 * time.Microsecond}, {phase: 0, gateD: 300 * time.Microsecond}}))
-	// cancellation right before the final wait while a worker is in flight
-	h0 := ok(0, 2, 'p', 3, 1)
-	h0.gate = true
-	out = append(out, one([]*script{h0, ok(1, 3, 'p', 3, 1)}, nil, 2, []runSpec{{phase: 0, plan: cancelPlan{kind: "hook", site: "wait", n: 1}, gateD: 2 * time.Millisecond}}))
-	// cancellation while Run is blocked in sem.Acquire
-	k0 := ok(0, 2, 'p', 3, 1)
-	k0.gate = true
-	out = append(out, one([]*script{k0, ok(1, 3, 'p', 3, 1), ok(2, 4, 'p', 3, 1)}, nil, 1, []runSpec{{phase: 0, plan: cancelPlan{kind: "timer", n: 300}}}))
-	// witness of finding gc-lock-name-collision:
-	// run 1 starts while run 0 holds the "garbage-collection" lock inside store.GC; its
-	// updater of that name finds the lock taken and is skipped although no updater of
-	// that name is running.
-	gc := ok(0, 1, 'p', 3, 1)
-	gc.fmode = 3
-	w := one([]*script{gc, ok(1, 3, 'p', 3, 1)}, nil, 2, []runSpec{{phase: 0}, {phase: 0, startGC: 1}})
-	w.mgrs[0].retention = 2
-	out = append(out, w)
-	return out
-}
-
-// Run is the harness entry point for C13.
-func Run(cfg hx.Config) error {
-	r, err := hx.NewRun(cfg)
-	if err != nil {
-		return err
-	}
-	zerolog.SetGlobalLevel(zerolog.Disabled)
-	r.Rule = "scenarios = scripted updater sets (plain/delta/enrichment, configurable or not, duplicate names across factories, stub and failing factories) x prior store history x batch size x 1-3 runs (sequential or concurrent, one or two managers sharing store and lock source) x cancellation plan x schedule perturbation; every hook point, lock operation, store call and updater call of the real manager is one protocol line answered by the Lean machine; a scenario is non-trivial when it had a failing step, an unchanged source, a lock conflict or a cancellation"
-	rnd := hx.NewRand(cfg.Seed)
-	before := runtime.NumGoroutine()
-	idx := 0
-	corpus, names, err := loadCorpus(cfg.Corpus)
-	if err != nil {
-		return err
-	}
-	r.Notes["corpus"] = len(names)
-	for _, sc := range append(corpus, fixedScenarios()...) {
-		if !runScenario(r, cfg.Seed, idx, sc) {
-			break
-		}
-		idx++
-	}
-	n := cfg.N(800, 40000)
-	for i := 0; i < n && !r.Stop(); i++ {
-		sc := genScenario(rnd, r)
-		if !runScenario(r, cfg.Seed, idx, sc) {
-			break
-		}
-		idx++
-	}
-	time.Sleep(20 * time.Millisecond)
-	if after := runtime.NumGoroutine(); after > before+4 {
-		time.Sleep(300 * time.Millisecond)
-		if after = runtime.NumGoroutine(); after > before+4 {
-			r.Fail("", fmt.Sprintf("goroutines-left-behind-by-Run before=%d after=%d", before, after))
-		}
-	}
-	r.Notes["scenarios"] = idx
-	r.Notes["store"] = "recording stub (go/internal/c13/stubs.go); Postgres is not exercised"
-	r.Notes["lock_source"] = "real libvuln/updates.localLockSource behind a logging wrapper"
-	return r.Close()
 }
